@@ -327,6 +327,62 @@ class Gen:
         return {"t": "switch", "test": [self.inp(), self.inp()], "cases": cases}
 
 
+def ring_design(rng: random.Random, sched="eager"):
+    """Forwarder-style producer / consumer pair plus arbiters: method w, method r whose readiness reads run(w)
+    (w.schedule_before(r)), transactions P (calls w), C (calls r) that do NOT conflict with each other, and one or
+    two further transactions that share exclusive resource methods with P and C.  The ordering edge between P and C
+    constrains the scheduling order only transitively; definition order of the transactions is random."""
+    g = Gen(rng, sched=sched)
+    r = rng
+
+    def meth(ready=True, **kw):
+        g.bodies.append(dict(kind="M", ready=g.inp() if ready else 0, nonexcl=False, single=False, hasarg=False,
+                             validate=0, comb="mux", parent=0, ch=[], mod=1, alias=0, rdyrun=0, rdymode="or", **kw))
+        return len(g.bodies)
+
+    def trans():
+        g.bodies.append(dict(kind="T", ready=g.inp() if r.random() < 0.8 else 0, nonexcl=False, single=False,
+                             hasarg=False, validate=0, comb="mux", parent=0, ch=[], mod=1, alias=0, rdyrun=0, rdymode="or"))
+        return len(g.bodies)
+
+    w, rd = meth(), meth()
+    g.bodies[rd - 1]["rdyrun"] = w
+    g.bodies[rd - 1]["rdymode"] = r.choice(["or", "or", "andnot"])
+    P, C = trans(), trans()
+    others = [trans() for _ in range(r.choice([1, 2, 2, 2, 3]))]
+    g.bodies[P - 1]["ch"].append(g.call(P, w))
+    g.bodies[C - 1]["ch"].append(g.call(C, rd))
+    # P and C never share a resource (they must not conflict); every further transaction x conflicts with P, with C
+    # or with both, through resource methods of its own (usually) or shared with an earlier x (sometimes)
+    res, res_p, res_c = [], [], []
+    for k, x in enumerate(others):
+        # the second one usually conflicts with P only: P then has more conflicts than C, and the default
+        # tie-break (fewest conflicts first) would like to schedule C before P
+        mode = "both" if k == 0 else ("p" if (k == 1 and r.random() < 0.7) else r.choice(["both", "p", "c"]))
+        pairs = []
+        if mode in ("both", "p"):
+            ra = r.choice(res_p) if (res_p and r.random() < 0.25) else meth(ready=r.random() < 0.5)
+            res_p.append(ra)
+            pairs += [(P, ra), (x, ra)]
+        if mode in ("both", "c"):
+            rb = r.choice(res_c) if (res_c and r.random() < 0.25) else meth(ready=r.random() < 0.5)
+            res_c.append(rb)
+            pairs += [(C, rb), (x, rb)]
+        for t, m in pairs:
+            if m not in res:
+                res.append(m)
+            if not any(n["t"] == "call" and g.sites[n["s"] - 1]["callee"] == m for n in g.bodies[t - 1]["ch"]):
+                g.bodies[t - 1]["ch"].append(g.call(t, m))
+    for s in g.sites:
+        s["en"], s["alias"] = 0, 0
+    g.rels.append(dict(a=w, b=rd, kind="before", prio="L", rdep=False))
+    ts = [P, C] + others
+    r.shuffle(ts)
+    root = [{"t": "body", "b": b} for b in [w, rd] + res + ts]
+    return dict(nin=g.nin, nargs=g.nargs, bodies=g.bodies, sites=g.sites, wits=g.wits, rels=g.rels, sched=sched,
+                roots=[root, []], nmods=1, const0=[])
+
+
 def def_order(design):
     """Definition order of bodies (module 1 is elaborated before its submodule; preorder)."""
     order = []
